@@ -11,7 +11,7 @@
      dec10 <hex>      -> ok <text-hex>         print_dec
      ll <text-hex>    -> ok <z-hex> <rest-hex> | err      strtoll(base 0) + errno test
    The float oracle (Section variables print_f64 / parse_f64 of NV.Isa.Asm) is instantiated here with the host libc
-   through OCaml: Printf "%.17g" (C printf) and float_of_string (C strtod); ERANGE is reconstructed from the result. *)
+   through OCaml: Printf "%.17g" (C printf) and float_of_string (C strtod); overflow (the only refused ERANGE) is reconstructed from the result. *)
 let bytes_of_ostring (s : ostring) : n list = List.init (String.length s) (fun i -> n_of_int (Char.code s.[i]))
 let ostring_of_bytes (l : n list) : ostring =
   let b = Buffer.create 64 in List.iter (fun c -> Buffer.add_char b (Char.chr (int_of_n c land 255))) l; Buffer.contents b
@@ -42,7 +42,8 @@ let sf (l : n list) : (n * n list) option =
       let nonzero_digit = let r = ref false in
         (try String.iter (fun c -> if c = 'e' || c = 'p' then raise Exit; if c >= '1' && c <= '9' then r := true) ls with Exit -> ()); !r in
       let cls = classify_float v in
-      let erange = (cls = FP_infinite && not (has "inf")) || (cls = FP_subnormal) || (cls = FP_zero && nonzero_digit) in
+      (* parse_double after the fix: errno is only an error when the result is +-HUGE_VAL (overflow) *)
+      let erange = (cls = FP_infinite && not (has "inf")) in
       if erange then None
       else Some (n_of_hex (Printf.sprintf "%Lx" (Int64.bits_of_float v)), rest)
 
@@ -98,8 +99,8 @@ let () = iter_lines (fun line ->
   | ["wfm"; d] ->
       let m = mod_of_desc d in
       let good v = (match sf (pf v) with Some (v', []) -> v' = v | _ -> false) in
-      let names = ["str_nul"; "str_nl"; "str_comment"; "str_len"; "str_bytes"; "distinct"; "fn_fields"; "fn_names"; "layout";
-                   "code_bytes"; "code_decodes"; "code_targets"; "code_boundaries"; "code_patches"; "code_f64"; "label_total"; "entry"] in
+      let names = ["str_len"; "str_bytes"; "distinct"; "fn_fields"; "fn_names"; "layout";
+                   "code_bytes"; "code_decodes"; "code_patches"; "code_f64"; "entry"] in
       let cs = wf_conjuncts_fast table_list good m in   (* = wf_conjuncts, theorem C11_wf_fast_is_wf *)
       let bad = List.filter_map (fun (nm, ok) -> if ok then None else Some nm) (List.combine names cs) in
       print_string (if bad = [] then "wf\n" else "notwf " ^ String.concat "," bad ^ "\n")
